@@ -27,9 +27,11 @@ def make_field_resolver(oracle, log, out_names=False):
 
 
 class AsyncPlan:
-    def __init__(self, seed, field=0, item=0, iterator=0, typ=0, long=0):
+    def __init__(self, seed, field=0, item=0, iterator=0, typ=0, long=0, close=0):
         self.seed = seed
-        self.d = {"field": field, "item": item, "iter": iterator, "type": typ}
+        # close: share of generator sources whose finalisation is asynchronous (the `finally` of the
+        # generator awaits a gate before the source counts as finalised)
+        self.d = {"field": field, "item": item, "iter": iterator, "type": typ, "close": close}
         # long > 0: every non-empty list of a top-level field is stretched to this length (C06's stratum
         # for the back-pressure of StreamItemQueue, whose capacity of 100 is not configurable from outside)
         self.long = long
@@ -85,7 +87,13 @@ def make_async_resolvers(oracle, sched, plan, events, log, out_names=False, sour
                             yield item
                         rec["exhausted"] += 1
                     finally:
-                        rec["finalized"] += 1
+                        try:
+                            if plan.is_async("close", path):
+                                rec["closing"] = rec.get("closing", 0) + 1
+                                await sched.gate("close:" + pstr(path))
+                        finally:
+                            # a cancellation that interrupts the asynchronous part still ends the finalisation
+                            rec["finalized"] += 1
 
                 return agen()
             out = []
